@@ -183,6 +183,15 @@ func endpointGroup(e *Exporter, thorough bool) *Group {
 		if thorough {
 			as = append(as, envBad("invalid", -1, badURL2))
 		}
+		// the SAME literal under the signal-specific and the generic variable (job "history"):
+		// whatever an exporter remembers about a string must not depend on which variable held it
+		if e.HTTP {
+			as = append(as, envURL("valid(trailing slash)", -1, "http://"+h("x1")+"/base/", h("x1"), "/base/"),
+				envURL("valid(path)", -1, "http://"+h("x2")+"/v", h("x2"), "/v"))
+		} else {
+			as = append(as, envURL("valid(trailing slash)", -1, "http://"+h("x1")+"/", h("x1"), "/"),
+				envURL("valid", -1, "http://"+h("x2"), h("x2"), ""))
+		}
 		return as
 	}
 	g.Spec, g.Gen = mk("s"), mk("g")
@@ -742,6 +751,7 @@ func Main(e *Exporter) {
 	} else {
 		names = append(names, "pairs")
 	}
+	names = append(names, "history:endpoint")
 	enum.Jobs(names, func(job string) {
 		r := enum.Start("C20", e.Name)
 		defer r.Finish()
@@ -774,6 +784,40 @@ func Main(e *Exporter) {
 			for gi, g := range x.groups {
 				if g.Name == strings.TrimPrefix(job, "single:") {
 					x.product([]int{gi}, false, nil)
+				}
+			}
+		case job == "history:endpoint":
+			// every ordered pair of configurations built from the shared-literal endpoint values (and
+			// the plain ones): the second exporter constructed in a process resolves as if it were
+			// the first. Both points of a pair are judged by the same reference as everywhere else.
+			g := x.groups[0]
+			var sh []int
+			for i, a := range g.Spec {
+				if strings.HasPrefix(a.Host, "x") || i <= 1 { // the shared literals (hosts x1, x2), absent, the plain valid value
+					sh = append(sh, i)
+				}
+			}
+			var pts []kase
+			for _, si := range sh {
+				for _, gi := range sh {
+					c := kase{picks: make([]*pick, len(x.groups))}
+					c.picks[0] = &pick{0, si, gi}
+					pts = append(pts, c)
+				}
+			}
+			r.Bound("history_points", len(pts))
+			r.Bound("history_ordered_pairs", len(pts)*len(pts))
+			for _, a := range pts {
+				for _, b := range pts {
+					if x.r.Expired() {
+						return
+					}
+					if !x.r.Want() {
+						continue
+					}
+					x.r.Count("configuration_points", 2)
+					x.one(a)
+					x.one(b)
 				}
 			}
 		case job == "pairs":
